@@ -104,9 +104,9 @@ pub fn expected_eps(p: &Program) -> BTreeSet<&'static str> {
 
 pub fn check_entry_points(ex: &mut Expander, p: &Program) -> Result<(), Bad> {
     let item = render::render_contract_item(p);
-    let e = ex.expand("entry_points", &render::entry_points_attr(p), &format!("#[contract]\n{item}")).map_err(Bad::Harness)?;
+    let e = ex.expand("entry_points", &render::entry_points_attr(p), &format!("#[contract]\n{item}")).map_err(unparsable)?;
     let text = clean_text(&e, "entry_points", p)?;
-    let file = proj::parse(text).map_err(Bad::Harness)?;
+    let file = proj::parse(text).map_err(unparsable)?;
     let fns = proj::entry_fns(&file).ok_or_else(|| viol("ep-module-missing", "expansion has no `entry_points` module", json!({"program": p})))?;
     let got: Vec<String> = fns.iter().map(|(n, _)| n.clone()).collect();
     let got_set: BTreeSet<&str> = got.iter().map(|s| s.as_str()).collect();
@@ -241,13 +241,13 @@ pub fn expected_markers(p: &Program) -> Vec<(u32, String)> {
         }
     };
     for (k, a) in &p.contract.msg_attrs {
-        if let MsgAttr::Marker(n) = a {
+        if let MsgAttr::Marker(n) | MsgAttr::DeriveMarker(n) = a {
             out.push((*n, format!("mod sv::type {}", ty_name(0, *k))));
         }
     }
     for (i, iface) in p.interfaces.iter().enumerate() {
         for (k, a) in &iface.msg_attrs {
-            if let MsgAttr::Marker(n) = a {
+            if let MsgAttr::Marker(n) | MsgAttr::DeriveMarker(n) = a {
                 out.push((*n, format!("mod sv::type {}", ty_name(i + 1, *k))));
             }
         }
@@ -288,12 +288,12 @@ pub fn c17a_case(ex: &mut Expander, tape: &Vec<u32>, st: &mut Stats) -> Result<(
     let mut got: Vec<(u32, String)> = vec![];
     for (n, e) in exp.ifaces.iter().enumerate() {
         let text = clean_text(e, "interface", &p)?;
-        let file = proj::parse(text).map_err(Bad::Harness)?;
+        let file = proj::parse(text).map_err(unparsable)?;
         let _ = n;
         got.extend(proj::markers(&file));
     }
     let text = clean_text(&exp.contract, "contract", &p)?;
-    got.extend(proj::markers(&proj::parse(text).map_err(Bad::Harness)?));
+    got.extend(proj::markers(&proj::parse(text).map_err(unparsable)?));
     got.sort();
     st.class(&format!("markers:{}", want.len().min(8)));
     let kinds: BTreeSet<String> = want.iter().map(|(_, l)| l.split("::").nth(1).unwrap_or("").to_string()).collect();
@@ -335,9 +335,14 @@ fn densify_markers(p: &mut Program) {
     let b = kinds[(p.contract.methods.len() + 1) % kinds.len()];
     p.contract.msg_attrs.push((a, MsgAttr::Marker(mk())));
     p.contract.msg_attrs.push((b, MsgAttr::Marker(mk())));
+    // forwarded derive lists whose members end like the derives the framework adds itself
+    p.contract.msg_attrs.push((a, MsgAttr::DeriveMarker(mk())));
+    p.contract.msg_attrs.push((b, MsgAttr::DeriveMarker(mk())));
+    p.contract.msg_attrs.push((kinds[(p.contract.methods.len() + 2) % kinds.len()], MsgAttr::DeriveMarker(mk())));
     for i in p.interfaces.iter_mut() {
         let k = Kind::ENUMS[i.methods.len() % 3];
         i.msg_attrs.push((k, MsgAttr::Marker(mk())));
+        i.msg_attrs.push((Kind::ENUMS[(i.methods.len() + 1) % 3], MsgAttr::DeriveMarker(mk())));
     }
     for part_methods in std::iter::once(&mut p.contract.methods).chain(p.interfaces.iter_mut().map(|i| &mut i.methods)) {
         for (n, m) in part_methods.iter_mut().enumerate() {
@@ -382,6 +387,11 @@ pub fn c15a_case(ex: &mut Expander, tape: &Vec<u32>, st: &mut Stats) -> Result<(
     let opts = GenOpts { allow_attrs: false, ..GenOpts::default() };
     let mut p = gen_msg_program("p_gen", tape.clone(), &opts);
     let mut t = svmodel::tape::Tape::new(tape.iter().rev().cloned().collect());
+    if t.chance(25) {
+        // a lifetime parameter next to the type parameters: used by no message
+        p.contract.lifetime = true;
+        p.contract.entry_points = false;
+    }
     if !p.contract.generics.is_empty() && t.chance(30) {
         // the error type of the StdError-returning queries mentions a parameter (and nothing else does, often)
         p.contract.query_err_param = Some(t.pick(p.contract.generics.len()));
@@ -414,7 +424,7 @@ pub fn c15a_case(ex: &mut Expander, tape: &Vec<u32>, st: &mut Stats) -> Result<(
     }
     let exp = expand_program(ex, &p)?;
     let ctext = clean_text(&exp.contract, "contract", &p)?;
-    let cfile = proj::parse(ctext).map_err(Bad::Harness)?;
+    let cfile = proj::parse(ctext).map_err(unparsable)?;
     let sv = proj::find_mod(&cfile.items, "sv").ok_or_else(|| viol("no-sv-mod", "contract expansion has no `sv` module", json!({})))?;
     let items = proj::mod_items(sv);
     let nparams = p.contract.generics.len();
@@ -498,7 +508,7 @@ pub fn c15a_case(ex: &mut Expander, tape: &Vec<u32>, st: &mut Stats) -> Result<(
     // interfaces: associated types play the role of parameters
     for (n, iface) in p.interfaces.iter().enumerate() {
         let text = clean_text(&exp.ifaces[n], "interface", &p)?;
-        let file = proj::parse(text).map_err(Bad::Harness)?;
+        let file = proj::parse(text).map_err(unparsable)?;
         let sv = proj::find_mod(&file.items, "sv").ok_or_else(|| viol("no-sv-mod", "interface expansion has no `sv` module", json!({})))?;
         let items = proj::mod_items(sv);
         for kind in Kind::ENUMS {
@@ -618,4 +628,10 @@ fn draw_one<T: std::fmt::Debug>(s: &proptest::strategy::BoxedStrategy<T>, seed: 
     b[..8].copy_from_slice(&seed.to_le_bytes());
     let mut r = proptest::test_runner::TestRunner::new_with_rng(Default::default(), proptest::test_runner::TestRng::from_seed(proptest::test_runner::RngAlgorithm::ChaCha, &b));
     s.new_tree(&mut r).unwrap().current()
+}
+
+/// The macro accepted the program, so its output has to be Rust: output that does not parse is
+/// a violation of its own (the harness' parser is syn 2 with the `full` feature).
+fn unparsable(e: String) -> Bad {
+    viol("unparsable-output", "the expansion of an accepted program does not parse as Rust", json!({"error": e}))
 }
